@@ -34,6 +34,79 @@ Proof.
   apply out_node_ok in H. destruct H as [-> _]. exists lname, leaf. auto.
 Qed.
 
+(* Splicer.__init__: which node input a sub-graph source called k is bound to.  No input map:
+   the node input of the same name.  An explicit map (also an empty one): the input the map
+   assigns to k -- and nothing when k is not a key, whatever the node's inputs are called *)
+Definition source_binding {A : Type} (inputs : list (string * A)) (imap : option smap) (k : string)
+  : option A :=
+  match imap with
+  | None => lookup k inputs
+  | Some m => match lookup k m with Some i => lookup i inputs | None => None end
+  end.
+
+Lemma mk_sp_inputs_lookup : forall inputs imap spi, mk_sp_inputs inputs imap = Ok spi ->
+  forall k, lookup k spi = source_binding inputs imap k.
+Proof.
+  intros inputs [m|] spi H k; simpl in H; [|injection H as <-; reflexivity].
+  unfold source_binding. revert spi H. induction m as [|[k' i] m IH]; intros spi H; simpl in H.
+  - injection H as <-. reflexivity.
+  - destruct (lookup i inputs) as [v|] eqn:Hi; simpl in H; [|discriminate].
+    destruct (map_res _ m) as [ys|] eqn:Hm; simpl in H; [|discriminate].
+    injection H as <-. simpl. destruct (String.eqb k k'); [now rewrite Hi|]. now apply IH.
+Qed.
+
+Lemma source_binding_map : forall A B (G : A -> B) (inputs : list (string * A)) imap k,
+  source_binding (map (fun x => (fst x, G (snd x))) inputs) imap k = option_map G (source_binding inputs imap k).
+Proof.
+  intros A B G inputs [m|] k; unfold source_binding; [|apply lookup_map_snd].
+  destruct (lookup k m) as [i|]; [apply lookup_map_snd|reflexivity].
+Qed.
+
+(* Splicer.inputs only holds outputs the node's inputs hold *)
+Lemma mk_sp_inputs_In : forall inputs imap spi, mk_sp_inputs inputs imap = Ok spi ->
+  forall y, In y spi -> exists x, In x inputs /\ snd x = snd y.
+Proof.
+  intros inputs [m|] spi H; simpl in H; [|injection H as <-; intros y Hy; now exists y].
+  revert spi H. induction m as [|[k' i] m IH]; intros spi H y Hy; simpl in H.
+  - injection H as <-. contradiction.
+  - destruct (lookup i inputs) as [v|] eqn:Hi; simpl in H; [|discriminate].
+    destruct (map_res _ m) as [ys|] eqn:Hm; simpl in H; [|discriminate].
+    injection H as <-. destruct Hy as [<-|Hy]; [|now apply (IH ys)].
+    simpl. clear -Hi. induction inputs as [|[k2 v2] inputs IHi]; simpl in Hi; [discriminate|].
+    destruct (String.eqb i k2).
+    + injection Hi as ->. exists (k2, v). split; [now left|reflexivity].
+    + destruct (IHi Hi) as (x & Hx & Hs). exists x. split; [now right|assumption].
+Qed.
+
+(* an explicit input map whose values are not all inputs of the node: KeyError *)
+Lemma mk_sp_inputs_keyerror : forall inputs m,
+  (exists e, mk_sp_inputs inputs (Some m) = Err e) <-> exists k i, In (k, i) m /\ lookup i inputs = None.
+Proof.
+  intros inputs m. simpl. induction m as [|[k' i] m IH]; simpl.
+  - split; [intros [e H]; discriminate|intros (k & i & [] & _)].
+  - destruct (lookup i inputs) as [v|] eqn:Hi; simpl.
+    + destruct (map_res _ m) as [ys|] eqn:Hm; simpl.
+      * split; [intros [e H]; discriminate|]. intros (k & j & [Heq|Hin] & Hn).
+        -- injection Heq as <- <-. congruence.
+        -- destruct IH as [_ IH]. destruct IH as [e He]; [eauto|discriminate].
+      * split; [|eauto]. intros _. destruct IH as [IH _]. destruct IH as (k & j & Hin & Hn); eauto.
+    + split; [|eauto]. intros _. exists k', i. auto.
+Qed.
+
+(* Splicer.source: a source of the sub-graph is replaced by a processor fed through "input"
+   by the input it is bound to; a source that is not bound stays a source (only renamed) *)
+Lemma splicer_visit_source : forall pname (spi : list (string * (nat * string))) (spo : smap)
+    (h' : list (node P)) n (s : node P) ins,
+  nins s = [] ->
+  splicer_visit pname spi spo h' n s ins =
+    Ok (h' ++ [mkNode (prefixed pname (nname s)) (nouts s) (npay s)
+                      (match lookup (nname s) spi with Some inp => [("input", inp)] | None => [] end)],
+        List.length h').
+Proof.
+  intros pname spi spo h' n s ins Hs. unfold splicer_visit. rewrite Hs.
+  destruct (lookup (nname s) spi) as [inp|]; reflexivity.
+Qed.
+
 (* the leaves are the transformed sub-graph sinks whose name, with the prefix "<node>."
    removed (removeprefix), is a value of the output map; all others are inner sinks *)
 Lemma splicer_sort_spec : forall pname (spo : smap) (h' : list (node P)) sinks l0 i0 leaves inner,
